@@ -87,6 +87,7 @@ class C11(Oracle):
                     nd.id_number, R.t, best_waiting[1], best_waiting[0], worst_served[1], worst_served[0]))
 
     def segment_end(self, op):
+        self.check_streams()
         R = self.R
         sim = R.sim
         draws = {}
